@@ -181,6 +181,19 @@ pub(crate) fn did_you_mean_const_int<'a>(schema: &'a Schema, name: &str) -> Opti
     did_you_mean(candidates, name)
 }
 
+/// Returns the id following `last`, or, if there is none, the smallest id for which `is_used`
+/// returns `false`.
+pub(crate) fn next_free_id(last: &mut u32, is_used: impl Fn(u32) -> bool) -> u32 {
+    match last.checked_add(1) {
+        Some(id) => {
+            *last = id;
+            id
+        }
+
+        None => (0..=u32::MAX).find(|&id| !is_used(id)).unwrap_or(0),
+    }
+}
+
 pub(crate) fn find_duplicates<I, KFN, K, DFN>(iter: I, mut key_fn: KFN, mut dup_fn: DFN)
 where
     I: IntoIterator,
